@@ -802,6 +802,10 @@ pub fn analyse_session(case: &Case, out: &Outcome) -> Analysis {
                 } else if matches!(out.verdict, Verdict::StepLimit | Verdict::PollLimit) && out.now.saturating_sub(g.read_t) > allowed {
                     a.v("C13", "R3-late", g.cmd, format!("`{}`: still no bestmove {} ns after the go although only {} ms were available", g.line, out.now - g.read_t, l));
                     a.v("C14", "R3-no-bestmove-after-time-is-up", g.cmd, format!("`{}`: accepted, its {} ms ran out {} ns ago, the search is still running and nothing was announced", g.line, l, out.now - g.read_t - limit_ns));
+                    // C07's own clause: a thinking time too short to finish depth 1 still gets a legal move
+                    if g.info_times.first().map_or(true, |&t| t > g.read_t.saturating_add(limit_ns)) {
+                        a.v("C07", "R1-stopped-answer", g.cmd, format!("`{}`: its {} ms, too short to finish the first iteration, ran out {} ns ago and the engine never answered", g.line, l, out.now - g.read_t - limit_ns));
+                    }
                 }
             }
         }
